@@ -122,8 +122,8 @@ def run_m1(case, work, rec):
         rec.seen("m1_schedules", (sc.name, case["seed"], tag))
         key = (sc.name, case["seed"], tag, mode)
         if [x for x in c2] != calls and not res["parts"]["error"]:
-            rec.violation(f"{sc.name}: the pool calls themselves depend on the schedule ({tag}): {c2} vs {calls}", key=key)
-        elif log:
+            rec.count("pool_calls_differ_between_schedules")     # observation only; the verdict is on the result
+        if log:
             rec.violation(f"{sc.name}: task log: {log[0]} under schedule {tag}", key=key)
         elif same(ref, res):
             rec.ok(key, True)
